@@ -634,7 +634,6 @@ class t2data(object):
         infile.read_value_line(self.parameter, 'param3')
         for val in infile.read_values('default_incons'):
             self.parameter['default_incons'].append(val)
-        self.parameter['default_incons'] = trim_trailing_nones(self.parameter['default_incons'])
         # read any additional lines of default incons:
         more = True
         while more:
@@ -645,9 +644,11 @@ class t2data(object):
                 if section: more = False
                 else:
                     more_incons = infile.parse_string(line, 'default_incons')
-                    more_incons = trim_trailing_nones(more_incons)
                     self.parameter['default_incons'] += more_incons
             else: more, line = False, None
+        # absent values are trimmed only at the end of the whole list: trimming
+        # each line would shift the values of the following lines
+        self.parameter['default_incons'] = trim_trailing_nones(self.parameter['default_incons'])
         return line
 
     def write_parameters(self, outfile):
